@@ -32,7 +32,8 @@ Inductive ty :=
 | TTime (u : tunit)                      (* datetime.time as time32[s|ms] / time64[us|ns] *)
 | TDuration (u : tunit)                  (* datetime.timedelta as duration[u] *)
 | TDecimal (p : Z) (s : Z)               (* decimal.Decimal as decimal128(p, s): conversion unmodelled *)
-| TOpt (t : ty)                          (* T | None *)
+| TOpt (t : ty)                          (* T | None  /  Optional[T] *)
+| TAnn (t : ty)                          (* Annotated[T, metadata]  (metadata without ArrowType, or an ArrowType equal to the inferred one) *)
 | TList (t : ty) | TSet (t : ty)         (* list[T], frozenset[T] *)
 | TMap (k v : ty).                       (* dict[K, V] *)
 
@@ -215,12 +216,17 @@ Fixpoint value_eqb (a b : value) {struct a} : bool :=
 (* ------------------------------------------------------------------ schema construction *)
 (* _is_optional_type: one level of  X | None *)
 Definition is_opt (t : ty) : ty * bool := match t with TOpt t' => (t', true) | _ => (t, false) end.
+(* _unwrap_annotated: Annotated[T, ...] -> T (typing flattens nested Annotated, one level is all there is).
+   Note the order everywhere below: Optional is stripped FIRST, Annotated SECOND, so  Annotated[X, m] | None  is
+   handled and  Annotated[X | None, m]  is not seen as optional. *)
+Definition unwrap_ann (t : ty) : ty := match t with TAnn t' => t' | _ => t end.
 
 (* _infer_arrow_type, in its branch order: Optional stripped (at every depth), Enum -> dictionary,
    dataclass -> struct, list, dict, frozenset, simple types / explicit ArrowType *)
 Fixpoint infer (t : ty) : aty :=
   match t with
   | TOpt t' => infer t'
+  | TAnn t' => infer t'                 (* no ArrowType among the metadata: recurse on the base type *)
   | TEnum _ => ADictStr
   | TData => AStruct
   | TList e => AList (infer e)
@@ -238,7 +244,7 @@ Definition is_data (t : ty) : bool := match t with TData => true | _ => false en
 (* _build_params_schema: (field type, nullable) *)
 Definition param_field (t : ty) : aty * bool :=
   let '(inner, nullable) := is_opt t in
-  if is_data inner then (ABin, nullable) else (infer inner, nullable).
+  if is_data (unwrap_ann inner) then (ABin, nullable) else (infer inner, nullable).
 
 (* _build_result_schema.  [opt_first] is the shape of the source: true when the Optional wrapper is
    stripped before the dataclass test (as _build_params_schema does), false when the dataclass test
@@ -402,7 +408,7 @@ Section Codec.
   (* _deserialize_value (value is not None) *)
   Definition deserialize_value (t : ty) (v : value) : outcome :=
     let '(inner, _) := is_opt t in
-    match inner with
+    match unwrap_ann inner with
     | TData => match v with
                | VBytes b => match deser b with Some d => Accept (VData d) | None => Reject end
                | _ => Reject
@@ -481,6 +487,7 @@ Fixpoint has_type (t : ty) (v : value) {struct t} : bool :=
                    end
   | TDecimal _ _ => false
   | TOpt t' => match v with VNone => true | _ => has_type t' v end
+  | TAnn t' => has_type t' v
   | TList e => match v with VList l => forallb (has_type e) l | _ => false end
   | TSet e => match v with VSet l => forallb (has_type e) l && all_distinct l | _ => false end
   | TMap k w => match v with
@@ -497,6 +504,7 @@ Fixpoint wire_plain (t : ty) : bool :=
   | TInt s bits => true
   | TFloat _ | TStr | TBytes | TBool | TDate | TTimestamp _ _ | TTime _ | TDuration _ => true
   | TOpt t' => wire_plain t'
+  | TAnn t' => wire_plain t'
   | TList e => wire_plain e
   | _ => false
   end.
@@ -505,6 +513,7 @@ Fixpoint wire_plain (t : ty) : bool :=
 Definition supported_inner (t : ty) : bool :=
   match t with
   | TOpt _ => false
+  | TAnn _ => false
   | TEnum names => forallb str_ok names
   | TData => true
   | TSet e => wire_plain e
@@ -515,11 +524,24 @@ Definition supported_inner (t : ty) : bool :=
 
 (* the annotations of the property: scalars at their Arrow widths, str, bytes, bool, enums, nested
    dataclasses, temporal types, Optional of any of these, lists / maps / frozensets of scalars
-   (here: of any wire_plain type, i.e. also nested lists and Optional elements) *)
-Definition supported (t : ty) : bool :=
+   (here: of any wire_plain type, i.e. also nested lists and Optional elements),
+   in every spelling the framework treats alike:  X,  X | None / Optional[X],  Annotated[X, m],
+   Annotated[X, m] | None / Optional[Annotated[X, m]].   Annotated[X | None, m]  (optional marker inside the
+   Annotated wrapper) is NOT among them: see refuted/R_C02.v *)
+Definition supported_plainly (t : ty) : bool :=            (* the spellings without Annotated at the top *)
   match t with
   | TOpt t' => supported_inner t'
   | _ => supported_inner t
+  end.
+Definition supported_core (t : ty) : bool :=
+  match t with
+  | TAnn t' => supported_inner t'
+  | _ => supported_inner t
+  end.
+Definition supported (t : ty) : bool :=
+  match t with
+  | TOpt t' => supported_core t'
+  | _ => supported_core t
   end.
 
 (* ------------------------------------------------------------------ the lossy cells of pyarrow's converter *)
